@@ -59,4 +59,15 @@ theorem C15_locals_provenance :
     GV.Generated.Facts.varsPassedTo =
       ["Evaluate", "ExecFunc", "ExecMethod", "ExecThreeLevel", "GetValue", "SetMapVarValue", "SetValue"] := by decide
 
+/-- The rule tree is shared by all executions — sequential, concurrent, on every engine instance —
+    and no method of internal/base other than the parser's `Accept*` setters assigns to a field of
+    the node it is called on (regenerated; the three stores of `KnowledgeContext.ClearRules` are the
+    container's, accounted for by C07's copy-on-write fact).  So nothing an execution computes — an
+    argument list, an error message, a counter — can be left in the tree for another execution to
+    find, which is what the model assumes by evaluating an immutable AST. -/
+theorem C15_rule_tree_read_only :
+    GV.Generated.Facts.nodeWrites =
+      ["KnowledgeContext.ClearRules: k.RuleEntities =", "KnowledgeContext.ClearRules: k.SortRules =",
+       "KnowledgeContext.ClearRules: k.SortRulesIndexMap ="] := by decide
+
 end GV.Props.C15
